@@ -5,6 +5,9 @@
   written Rust impl: `coords_count` is arithmetic, `coords_iter` is the traversal, …).
 -/
 import GeoModel.Traverse
+import GeoProofs.Props.C18
+import Mathlib.Tactic.Linarith
+import Mathlib.Tactic.NormNum
 
 namespace Geo.Proofs.C19
 open Geo
@@ -39,5 +42,1422 @@ theorem count_eq_length_list : ∀ gs : List Geom, coordsCountList gs = (coordsI
   | g :: gs => by
       simp [coordsCountList, coordsIterList, count_eq_length g, count_eq_length_list gs]
 end
+
+/-! ## 1. `exterior_coords_iter` is a sub-sequence of `coords_iter` -/
+
+private theorem poly_ext_sublist (p : Poly) : p.ext.Sublist p.coords :=
+  List.sublist_append_left _ _
+
+private theorem mpoly_ext_sublist :
+    ∀ ps : List Poly, ((ps.map Poly.ext).flatten).Sublist ((ps.map Poly.coords).flatten)
+  | [] => List.Sublist.refl _
+  | p :: ps => by
+      simp only [List.map_cons, List.flatten_cons]
+      exact List.Sublist.append (poly_ext_sublist p) (mpoly_ext_sublist ps)
+
+mutual
+/-- [T] `exterior_coords_iter` yields a sub-sequence (same order, nothing new) of what
+`coords_iter` yields, for every geometry. -/
+theorem exterior_sublist : ∀ g : Geom, (exteriorCoords g).Sublist (coordsIter g)
+  | .point _ => List.Sublist.refl _
+  | .line _ _ => List.Sublist.refl _
+  | .lineString _ => List.Sublist.refl _
+  | .polygon p => by simp only [exteriorCoords, coordsIter]; exact poly_ext_sublist p
+  | .multiPoint _ => List.Sublist.refl _
+  | .multiLineString _ => List.Sublist.refl _
+  | .multiPolygon ps => by simp only [exteriorCoords, coordsIter]; exact mpoly_ext_sublist ps
+  | .rect _ _ => List.Sublist.refl _
+  | .triangle _ _ _ => List.Sublist.refl _
+  | .collection gs => by simp only [exteriorCoords, coordsIter]; exact exterior_sublist_list gs
+theorem exterior_sublist_list :
+    ∀ gs : List Geom, (exteriorCoordsList gs).Sublist (coordsIterList gs)
+  | [] => List.Sublist.refl _
+  | g :: gs => by
+      simp only [exteriorCoordsList, coordsIterList]
+      exact List.Sublist.append (exterior_sublist g) (exterior_sublist_list gs)
+end
+
+/-- A polygon without interior coordinates (no holes, or only empty hole rings). -/
+def polyNoInteriors (p : Poly) : Bool := p.ints.all List.isEmpty
+
+mutual
+/-- No `Polygon` / `MultiPolygon` member has an interior ring with coordinates. -/
+def noInteriors : Geom → Bool
+  | .polygon p => polyNoInteriors p
+  | .multiPolygon ps => ps.all polyNoInteriors
+  | .collection gs => noInteriorsList gs
+  | .point _ | .line _ _ | .lineString _ | .multiPoint _ | .multiLineString _
+  | .rect _ _ | .triangle _ _ _ => true
+def noInteriorsList : List Geom → Bool
+  | [] => true
+  | g :: gs => noInteriors g && noInteriorsList gs
+end
+
+mutual
+/-- No `Polygon` member and no non-empty `MultiPolygon` member anywhere in the tree. -/
+def noPolygons : Geom → Bool
+  | .polygon _ => false
+  | .multiPolygon ps => ps.isEmpty
+  | .collection gs => noPolygonsList gs
+  | .point _ | .line _ _ | .lineString _ | .multiPoint _ | .multiLineString _
+  | .rect _ _ | .triangle _ _ _ => true
+def noPolygonsList : List Geom → Bool
+  | [] => true
+  | g :: gs => noPolygons g && noPolygonsList gs
+end
+
+private theorem flatten_all_isEmpty (ls : List (List Pt)) (h : ls.all List.isEmpty = true) :
+    ls.flatten = [] := by
+  induction ls with
+  | nil => rfl
+  | cons a t ih =>
+    simp only [List.all_cons, Bool.and_eq_true, List.isEmpty_iff] at h
+    simp [h.1, ih h.2]
+
+private theorem poly_coords_of_noInteriors (p : Poly) (h : polyNoInteriors p = true) :
+    p.coords = p.ext := by
+  simp [Poly.coords, flatten_all_isEmpty p.ints (by simpa [polyNoInteriors] using h)]
+
+mutual
+/-- [T] for geometries whose polygons carry no interior coordinates the exterior traversal
+*is* the traversal. -/
+theorem exterior_eq_of_noInteriors :
+    ∀ g : Geom, noInteriors g = true → exteriorCoords g = coordsIter g
+  | .point _, _ => rfl
+  | .line _ _, _ => rfl
+  | .lineString _, _ => rfl
+  | .polygon p, h => by
+      simp only [noInteriors] at h
+      simp only [exteriorCoords, coordsIter, poly_coords_of_noInteriors p h]
+  | .multiPoint _, _ => rfl
+  | .multiLineString _, _ => rfl
+  | .multiPolygon ps, h => by
+      simp only [noInteriors, List.all_eq_true] at h
+      simp only [exteriorCoords, coordsIter]
+      congr 1
+      apply List.map_congr_left
+      intro p hp
+      exact (poly_coords_of_noInteriors p (h p hp)).symm
+  | .rect _ _, _ => rfl
+  | .triangle _ _ _, _ => rfl
+  | .collection gs, h => by
+      simp only [noInteriors] at h
+      simp only [exteriorCoords, coordsIter]; exact exterior_eq_of_noInteriors_list gs h
+theorem exterior_eq_of_noInteriors_list :
+    ∀ gs : List Geom, noInteriorsList gs = true → exteriorCoordsList gs = coordsIterList gs
+  | [], _ => rfl
+  | g :: gs, h => by
+      simp only [noInteriorsList, Bool.and_eq_true] at h
+      simp only [exteriorCoordsList, coordsIterList, exterior_eq_of_noInteriors g h.1,
+        exterior_eq_of_noInteriors_list gs h.2]
+end
+
+mutual
+private theorem noInteriors_of_noPolygons : ∀ g : Geom, noPolygons g = true → noInteriors g = true
+  | .point _, _ => rfl
+  | .line _ _, _ => rfl
+  | .lineString _, _ => rfl
+  | .polygon p, h => by simp [noPolygons] at h
+  | .multiPoint _, _ => rfl
+  | .multiLineString _, _ => rfl
+  | .multiPolygon ps, h => by
+      simp only [noPolygons, List.isEmpty_iff] at h
+      subst h; rfl
+  | .rect _ _, _ => rfl
+  | .triangle _ _ _, _ => rfl
+  | .collection gs, h => by
+      simp only [noPolygons] at h
+      simp only [noInteriors]; exact noInteriors_of_noPolygons_list gs h
+private theorem noInteriors_of_noPolygons_list :
+    ∀ gs : List Geom, noPolygonsList gs = true → noInteriorsList gs = true
+  | [], _ => rfl
+  | g :: gs, h => by
+      simp only [noPolygonsList, Bool.and_eq_true] at h
+      simp only [noInteriorsList, Bool.and_eq_true]
+      exact ⟨noInteriors_of_noPolygons g h.1, noInteriors_of_noPolygons_list gs h.2⟩
+end
+
+/-- [T] for geometries without polygons the exterior traversal *is* the traversal. -/
+theorem exterior_eq_of_noPolygons (g : Geom) (h : noPolygons g = true) :
+    exteriorCoords g = coordsIter g :=
+  exterior_eq_of_noInteriors g (noInteriors_of_noPolygons g h)
+
+example : exteriorCoords (.collection [.lineString [⟨0, 0⟩, ⟨1, 2⟩], .collection [.rect ⟨0, 0⟩ ⟨3, 4⟩]])
+    = coordsIter (.collection [.lineString [⟨0, 0⟩, ⟨1, 2⟩], .collection [.rect ⟨0, 0⟩ ⟨3, 4⟩]]) :=
+  exterior_eq_of_noPolygons _ (by decide)
+
+example : exteriorCoords (.polygon ⟨[⟨0, 0⟩, ⟨1, 2⟩, ⟨5, 0⟩, ⟨0, 0⟩], [[]]⟩)
+    = coordsIter (.polygon ⟨[⟨0, 0⟩, ⟨1, 2⟩, ⟨5, 0⟩, ⟨0, 0⟩], [[]]⟩) :=
+  exterior_eq_of_noInteriors _ (by decide)
+
+/-! ## 2. `lines_iter` yields the consecutive coordinate pairs -/
+
+/-- [T] `windows(2)` is the list of consecutive pairs. -/
+theorem windows2_eq_zip : ∀ cs : List Pt, windows2 cs = cs.zip cs.tail
+  | [] => rfl
+  | [_] => rfl
+  | a :: b :: rest => by
+      simp only [windows2, List.tail_cons, List.zip_cons_cons]
+      rw [windows2_eq_zip (b :: rest)]; rfl
+
+/-- [T] there is one line less than there are coordinates (none for 0 or 1 coordinates). -/
+theorem windows2_length (cs : List Pt) : (windows2 cs).length = cs.length - 1 := by
+  rw [windows2_eq_zip, List.length_zip, List.length_tail]; omega
+
+/-- [T] the i-th line joins the i-th and (i+1)-th coordinate. -/
+theorem windows2_getElem? : ∀ (cs : List Pt) (i : Nat),
+    (windows2 cs)[i]? = (match cs[i]?, cs[i + 1]? with
+      | some a, some b => some (a, b)
+      | _, _ => none)
+  | [], i => by simp [windows2]
+  | [a], i => by cases i <;> simp [windows2]
+  | a :: b :: rest, 0 => by simp [windows2]
+  | a :: b :: rest, i + 1 => by
+      have := windows2_getElem? (b :: rest) i
+      simpa [windows2] using this
+
+theorem mem_windows2 {cs : List Pt} {l : Pt × Pt} (h : l ∈ windows2 cs) : l.1 ∈ cs ∧ l.2 ∈ cs := by
+  rw [windows2_eq_zip] at h
+  obtain ⟨a, b⟩ := l
+  have := List.of_mem_zip h
+  exact ⟨this.1, List.mem_of_mem_tail this.2⟩
+
+private theorem mem_rings_lines {ls : List (List Pt)} {l : Pt × Pt}
+    (h : l ∈ (ls.map windows2).flatten) : l.1 ∈ ls.flatten ∧ l.2 ∈ ls.flatten := by
+  simp only [List.mem_flatten, List.mem_map] at h
+  obtain ⟨_, ⟨r, hr, rfl⟩, hl⟩ := h
+  have := mem_windows2 hl
+  exact ⟨List.mem_flatten.2 ⟨r, hr, this.1⟩, List.mem_flatten.2 ⟨r, hr, this.2⟩⟩
+
+private theorem mem_poly_lines {p : Poly} {l : Pt × Pt} (h : l ∈ p.lines) :
+    l.1 ∈ p.coords ∧ l.2 ∈ p.coords := by
+  simp only [Poly.lines, List.mem_append] at h
+  simp only [Poly.coords, List.mem_append]
+  rcases h with h | h
+  · exact ⟨Or.inl (mem_windows2 h).1, Or.inl (mem_windows2 h).2⟩
+  · exact ⟨Or.inr (mem_rings_lines h).1, Or.inr (mem_rings_lines h).2⟩
+
+/-- [T] `lines_iter` of the linear types is literally the consecutive pairs of each linear
+component (ring / line string), in component order. -/
+theorem lines_pairs_lineString (cs : List Pt) : linesIter (.lineString cs) = some (cs.zip cs.tail) := by
+  simp [linesIter, windows2_eq_zip]
+
+theorem lines_pairs_multiLineString (ls : List (List Pt)) :
+    linesIter (.multiLineString ls) = some ((ls.map fun cs => cs.zip cs.tail).flatten) := by
+  simp only [linesIter]
+  congr 2
+  exact List.map_congr_left fun cs _ => windows2_eq_zip cs
+
+theorem lines_pairs_polygon (p : Poly) :
+    linesIter (.polygon p) =
+      some (p.ext.zip p.ext.tail ++ (p.ints.map fun cs => cs.zip cs.tail).flatten) := by
+  simp only [linesIter, Poly.lines, windows2_eq_zip]
+  congr 3
+  exact List.map_congr_left fun cs _ => windows2_eq_zip cs
+
+theorem lines_pairs_multiPolygon (ps : List Poly) :
+    linesIter (.multiPolygon ps) =
+      some ((ps.map fun p => p.ext.zip p.ext.tail ++ (p.ints.map fun cs => cs.zip cs.tail).flatten).flatten) := by
+  simp only [linesIter]
+  congr 2
+  apply List.map_congr_left
+  intro p _
+  have := lines_pairs_polygon p
+  simp only [linesIter, Option.some.injEq] at this
+  exact this
+
+/-- [T] the number of lines: one less than the coordinates of every linear component. -/
+theorem lines_count_polygon (p : Poly) :
+    p.lines.length = (p.ext.length - 1) + ((p.ints.map fun r => r.length - 1).sum) := by
+  simp only [Poly.lines, List.length_append, windows2_length, List.length_flatten, List.map_map]
+  congr 2
+  exact List.map_congr_left fun r _ => windows2_length r
+
+/-- [T] every line that `lines_iter` yields has both end points among the coordinates that
+`coords_iter` yields (all seven types implementing `LinesIter`, Rect and Triangle included). -/
+theorem lines_endpoints (g : Geom) (ls : List (Pt × Pt)) (h : linesIter g = some ls) :
+    ∀ l ∈ ls, l.1 ∈ coordsIter g ∧ l.2 ∈ coordsIter g := by
+  intro l hl
+  cases g with
+  | point _ => simp [linesIter] at h
+  | multiPoint _ => simp [linesIter] at h
+  | collection _ => simp [linesIter] at h
+  | line a b =>
+    simp only [linesIter, Option.some.injEq] at h; subst h
+    simp only [List.mem_singleton] at hl; subst hl
+    simp [coordsIter]
+  | lineString cs =>
+    simp only [linesIter, Option.some.injEq] at h; subst h
+    exact mem_windows2 hl
+  | multiLineString rs =>
+    simp only [linesIter, Option.some.injEq] at h; subst h
+    exact mem_rings_lines hl
+  | polygon p =>
+    simp only [linesIter, Option.some.injEq] at h; subst h
+    exact mem_poly_lines hl
+  | multiPolygon ps =>
+    simp only [linesIter, Option.some.injEq] at h; subst h
+    simp only [List.mem_flatten, List.mem_map] at hl
+    obtain ⟨_, ⟨p, hp, rfl⟩, hl⟩ := hl
+    have := mem_poly_lines hl
+    simp only [coordsIter, List.mem_flatten, List.mem_map]
+    exact ⟨⟨_, ⟨p, hp, rfl⟩, this.1⟩, ⟨_, ⟨p, hp, rfl⟩, this.2⟩⟩
+  | rect mn mx =>
+    simp only [linesIter, Option.some.injEq] at h; subst h
+    simp only [SM.rectToLines, List.mem_cons, List.not_mem_nil, or_false] at hl
+    rcases hl with rfl | rfl | rfl | rfl <;> simp [coordsIter, rectCoords]
+  | triangle a b c =>
+    simp only [linesIter, Option.some.injEq] at h; subst h
+    simp only [List.mem_cons, List.not_mem_nil, or_false] at hl
+    rcases hl with rfl | rfl | rfl <;> simp [coordsIter]
+
+example : ∀ l ∈ [((⟨0, 0⟩ : Pt), (⟨1, 2⟩ : Pt)), (⟨1, 2⟩, ⟨5, 0⟩)],
+    l.1 ∈ coordsIter (.lineString [⟨0, 0⟩, ⟨1, 2⟩, ⟨5, 0⟩]) ∧
+    l.2 ∈ coordsIter (.lineString [⟨0, 0⟩, ⟨1, 2⟩, ⟨5, 0⟩]) :=
+  lines_endpoints _ _ rfl
+
+/-! ## 3. `map_coords` maps the traversal (Rect and re-oriented Triangles excepted) -/
+
+/-- Every ring of the polygon is closed (the C18 invariant `SM.Inv`). -/
+def polyClosed (p : Poly) : Bool := SM.isClosed p.ext && p.ints.all SM.isClosed
+
+mutual
+/-- The members of `g` that `map_coords f` rebuilds *without* re-normalising:
+* no `Rect` member (the property's own exception: `Rect::new` re-sorts the mapped corners);
+* every `Triangle a b c` member keeps a non-negative cross product under `f`
+  (otherwise `Triangle::new` reverses the corners — known finding K8);
+* every polygon ring is closed (the C18 invariant — every `Polygon` built through the API
+  satisfies it; `Polygon::new` re-closes the mapped rings, which is a no-op on closed rings). -/
+def mapRegular (f : Pt → Pt) : Geom → Bool
+  | .rect _ _ => false
+  | .triangle a b c => decide (0 ≤ crossProd (f a) (f b) (f c))
+  | .polygon p => polyClosed p
+  | .multiPolygon ps => ps.all polyClosed
+  | .collection gs => mapRegularList f gs
+  | .point _ | .line _ _ | .lineString _ | .multiPoint _ | .multiLineString _ => true
+def mapRegularList (f : Pt → Pt) : List Geom → Bool
+  | [] => true
+  | g :: gs => mapRegular f g && mapRegularList f gs
+end
+
+private theorem isClosed_map (f : Pt → Pt) (r : List Pt) (h : SM.isClosed r = true) :
+    SM.isClosed (r.map f) = true := by
+  simp only [SM.isClosed, decide_eq_true_eq] at h ⊢
+  rw [List.head?_map, List.getLast?_map, h]
+
+private theorem close_map (f : Pt → Pt) (r : List Pt) (h : SM.isClosed r = true) :
+    SM.close (r.map f) = r.map f :=
+  C18.close_of_closed _ (isClosed_map f r h)
+
+private theorem map_close_rings (f : Pt → Pt) (rs : List (List Pt))
+    (h : rs.all SM.isClosed = true) :
+    (rs.map (·.map f)).map SM.close = rs.map (·.map f) := by
+  rw [List.map_map]
+  apply List.map_congr_left
+  intro r hr
+  exact close_map f r (List.all_eq_true.1 h r hr)
+
+/-- [T] on a polygon with closed rings `map_coords` maps ring by ring and adds nothing. -/
+theorem poly_map_closed (f : Pt → Pt) (p : Poly) (h : polyClosed p = true) :
+    Poly.map f p = ⟨p.ext.map f, p.ints.map (·.map f)⟩ := by
+  simp only [polyClosed, Bool.and_eq_true] at h
+  simp only [Poly.map, Poly.mk', close_map f _ h.1, map_close_rings f _ h.2]
+
+private theorem poly_map_coords (f : Pt → Pt) (p : Poly) (h : polyClosed p = true) :
+    (Poly.map f p).coords = p.coords.map f := by
+  rw [poly_map_closed f p h]
+  simp [Poly.coords, List.map_flatten]
+
+private theorem triangleNew_of_nonneg {a b c : Pt} (h : 0 ≤ crossProd a b c) :
+    triangleNew a b c = (a, b, c) := by
+  simp [triangleNew, not_lt.2 h]
+
+mutual
+/-- [T] the traversal of `map_coords f g` is `f` applied to the traversal of `g`, for every
+geometry tree in which nothing is re-normalised (`mapRegular`).
+Full statement without the hypothesis is false: `mapCoords_rect` (the property's exception)
+and `map_triangle_flip_witness` (K8). -/
+theorem map_traversal (f : Pt → Pt) :
+    ∀ g : Geom, mapRegular f g = true → coordsIter (mapCoords f g) = (coordsIter g).map f
+  | .point _, _ => rfl
+  | .line _ _, _ => rfl
+  | .lineString _, _ => rfl
+  | .polygon p, h => by
+      simp only [mapRegular] at h
+      simp only [mapCoords, coordsIter, poly_map_coords f p h]
+  | .multiPoint _, _ => rfl
+  | .multiLineString ls, _ => by simp [mapCoords, coordsIter, List.map_flatten]
+  | .multiPolygon ps, h => by
+      simp only [mapRegular, List.all_eq_true] at h
+      simp only [mapCoords, coordsIter, List.map_flatten, List.map_map]
+      congr 1
+      apply List.map_congr_left
+      intro p hp
+      exact poly_map_coords f p (h p hp)
+  | .rect _ _, h => by simp [mapRegular] at h
+  | .triangle a b c, h => by
+      simp only [mapRegular, decide_eq_true_eq] at h
+      simp [mapCoords, coordsIter, triangleNew_of_nonneg h]
+  | .collection gs, h => by
+      simp only [mapRegular] at h
+      simp only [mapCoords, coordsIter]; exact map_traversal_list f gs h
+theorem map_traversal_list (f : Pt → Pt) :
+    ∀ gs : List Geom, mapRegularList f gs = true →
+      coordsIterList (mapCoordsList f gs) = (coordsIterList gs).map f
+  | [], _ => rfl
+  | g :: gs, h => by
+      simp only [mapRegularList, Bool.and_eq_true] at h
+      simp only [mapCoordsList, coordsIterList, List.map_append, map_traversal f g h.1,
+        map_traversal_list f gs h.2]
+end
+
+/-- Non-vacuity: a nested collection with a polygon with a hole, a triangle and an
+orientation-preserving affine map (x,y) ↦ (2x+1, 3y-2). -/
+example :
+    let f : Pt → Pt := fun p => ⟨2 * p.x + 1, 3 * p.y - 2⟩
+    let g : Geom := .collection [.polygon ⟨[⟨0, 0⟩, ⟨4, 0⟩, ⟨0, 4⟩, ⟨0, 0⟩], [[⟨1, 1⟩, ⟨2, 1⟩, ⟨1, 2⟩, ⟨1, 1⟩]]⟩,
+      .collection [.triangle ⟨0, 0⟩ ⟨1, 0⟩ ⟨0, 1⟩, .multiPoint []]]
+    coordsIter (mapCoords f g) = (coordsIter g).map f := by
+  intro f g
+  apply map_traversal
+  simp [g, f, mapRegular, mapRegularList, polyClosed, SM.isClosed, crossProd]
+
+/-- [T] the Rect exception of the property: `map_coords` on a `Rect` maps the two stored
+corners and rebuilds through `Rect::new`, which re-sorts them component-wise. -/
+theorem mapCoords_rect (f : Pt → Pt) (mn mx : Pt) :
+    mapCoords f (.rect mn mx) = (let r := SM.rectNew (f mn) (f mx); .rect r.mn r.mx) := rfl
+
+/-- `Rect::new` on corners that are already ordered returns them unchanged. -/
+theorem rectNew_of_le {a b : Pt} (hx : a.x ≤ b.x) (hy : a.y ≤ b.y) : SM.rectNew a b = ⟨a, b⟩ := by
+  obtain ⟨ax, ay⟩ := a; obtain ⟨bx, by'⟩ := b
+  simp only at hx hy
+  unfold SM.rectNew
+  rcases lt_or_eq_of_le hx with h | h <;> rcases lt_or_eq_of_le hy with h' | h' <;> simp [h, h']
+
+/-- [T] … and when `f` acts component-wise and keeps the corner order (`f mn ≤ f mx`, e.g. a
+translation or a positive axis-aligned scaling) the Rect traversal is mapped like every other. -/
+theorem map_traversal_rect_monotone (f : Pt → Pt) (mn mx : Pt)
+    (hx : (f mn).x ≤ (f mx).x) (hy : (f mn).y ≤ (f mx).y)
+    (hf : ∀ p q : Pt, f ⟨p.x, q.y⟩ = ⟨(f p).x, (f q).y⟩) :
+    coordsIter (mapCoords f (.rect mn mx)) = (coordsIter (.rect mn mx)).map f := by
+  simp only [mapCoords, rectNewPts, rectNew_of_le hx hy, coordsIter, rectCoords, List.map,
+    hf mx mn, hf mn mx]
+
+example : coordsIter (mapCoords (fun p => ⟨2 * p.x + 1, 3 * p.y - 2⟩) (.rect ⟨0, 0⟩ ⟨1, 2⟩)) =
+    (coordsIter (.rect ⟨0, 0⟩ ⟨1, 2⟩)).map (fun p => ⟨2 * p.x + 1, 3 * p.y - 2⟩) :=
+  map_traversal_rect_monotone _ _ _ (by norm_num) (by norm_num) (fun _ _ => rfl)
+
+/-- [T] K8 witness: for the counter-clockwise triangle (1,1),(6,3),(3,5), under the axis swap
+`f (x,y) = (y,x)` the traversal of `map_coords f` is the *reverse* of `f` applied to the
+original traversal, so `map_traversal` cannot hold for triangles without `mapRegular`. -/
+theorem map_triangle_flip_witness :
+    let f : Pt → Pt := fun p => ⟨p.y, p.x⟩
+    let t : Geom := .triangle ⟨1, 1⟩ ⟨6, 3⟩ ⟨3, 5⟩
+    coordsIter (mapCoords f t) = ((coordsIter t).map f).reverse ∧
+    coordsIter (mapCoords f t) ≠ (coordsIter t).map f := by
+  intro f t
+  have h : crossProd (f ⟨1, 1⟩) (f ⟨6, 3⟩) (f ⟨3, 5⟩) < 0 := by
+    simp only [f, crossProd]; norm_num
+  have e : coordsIter (mapCoords f t) = [f ⟨3, 5⟩, f ⟨6, 3⟩, f ⟨1, 1⟩] := by
+    simp only [t, mapCoords, triangleNew, h, if_true, coordsIter]
+  rw [e]
+  constructor
+  · simp [t, coordsIter]
+  · simp only [t, coordsIter, List.map, f]
+    intro hh
+    have := congrArg (fun l => (l.headD ⟨0, 0⟩).x) hh
+    norm_num at this
+
+mutual
+/-- Every polygon ring in the tree is closed (C18 invariant); no condition on Rect/Triangle. -/
+def ringsClosed : Geom → Bool
+  | .polygon p => polyClosed p
+  | .multiPolygon ps => ps.all polyClosed
+  | .collection gs => ringsClosedList gs
+  | .point _ | .line _ _ | .lineString _ | .multiPoint _ | .multiLineString _
+  | .rect _ _ | .triangle _ _ _ => true
+def ringsClosedList : List Geom → Bool
+  | [] => true
+  | g :: gs => ringsClosed g && ringsClosedList gs
+end
+
+private theorem poly_map_count (f : Pt → Pt) (p : Poly) (h : polyClosed p = true) :
+    (Poly.map f p).count = p.count := by
+  rw [poly_count, poly_map_coords f p h, List.length_map, ← poly_count]
+
+mutual
+/-- [T] shape preservation: `map_coords` keeps the number of coordinates (Rect and Triangle
+included: re-normalising permutes, never adds) whenever the polygon rings are closed. -/
+theorem map_count_closed (f : Pt → Pt) :
+    ∀ g : Geom, ringsClosed g = true → coordsCount (mapCoords f g) = coordsCount g
+  | .point _, _ => rfl
+  | .line _ _, _ => rfl
+  | .lineString _, _ => by simp [mapCoords, coordsCount]
+  | .polygon p, h => by
+      simp only [ringsClosed] at h
+      simp only [mapCoords, coordsCount, poly_map_count f p h]
+  | .multiPoint _, _ => by simp [mapCoords, coordsCount]
+  | .multiLineString ls, _ => by
+      simp only [mapCoords, coordsCount, List.map_map]
+      congr 1; apply List.map_congr_left; intro r _; simp
+  | .multiPolygon ps, h => by
+      simp only [ringsClosed, List.all_eq_true] at h
+      simp only [mapCoords, coordsCount, List.map_map]
+      congr 1; apply List.map_congr_left; intro p hp
+      exact poly_map_count f p (h p hp)
+  | .rect _ _, _ => rfl
+  | .triangle _ _ _, _ => rfl
+  | .collection gs, h => by
+      simp only [ringsClosed] at h
+      simp only [mapCoords, coordsCount]; exact map_count_closed_list f gs h
+theorem map_count_closed_list (f : Pt → Pt) :
+    ∀ gs : List Geom, ringsClosedList gs = true →
+      coordsCountList (mapCoordsList f gs) = coordsCountList gs
+  | [], _ => rfl
+  | g :: gs, h => by
+      simp only [ringsClosedList, Bool.and_eq_true] at h
+      simp only [mapCoordsList, coordsCountList, map_count_closed f g h.1,
+        map_count_closed_list f gs h.2]
+end
+
+/-- [T] `coords_count` is preserved by `map_coords` under the hypothesis of `map_traversal`. -/
+theorem map_count (f : Pt → Pt) (g : Geom) (h : mapRegular f g = true) :
+    coordsCount (mapCoords f g) = coordsCount g := by
+  rw [count_eq_length, map_traversal f g h, List.length_map, ← count_eq_length]
+
+example : coordsCount (mapCoords (fun p => ⟨p.y, p.x⟩)
+      (.collection [.rect ⟨0, 0⟩ ⟨1, 2⟩, .polygon ⟨[⟨0, 0⟩, ⟨4, 0⟩, ⟨0, 4⟩, ⟨0, 0⟩], []⟩])) =
+    coordsCount (.collection [.rect ⟨0, 0⟩ ⟨1, 2⟩, .polygon ⟨[⟨0, 0⟩, ⟨4, 0⟩, ⟨0, 4⟩, ⟨0, 0⟩], []⟩]) :=
+  map_count_closed _ _ (by decide)
+
+/-- [T] why the closed-ring hypothesis is needed: on an *open* ring (which no constructor
+produces, but the model type admits) `Polygon::new` inside `map_coords` appends a coordinate. -/
+theorem map_open_ring_witness :
+    coordsCount (mapCoords id (.polygon ⟨[⟨0, 0⟩, ⟨1, 0⟩, ⟨0, 1⟩], []⟩)) = 4 := by
+  decide
+
+/-! ## 4. `try_map_coords`: all-`Ok` agrees with `map_coords`; the first failure wins -/
+
+/-- [T] `collect::<Result<Vec<_>, _>>()` over a function that never fails is `map`. -/
+theorem tryMapList_ok {α β ε} (f : α → Except ε β) (h : α → β) (hf : ∀ a, f a = .ok (h a)) :
+    ∀ l : List α, tryMapList f l = .ok (l.map h)
+  | [] => rfl
+  | a :: as => by simp [tryMapList, hf a, tryMapList_ok f h hf as]
+
+private theorem poly_tryMap_ok {ε} (f : Pt → Except ε Pt) (h : Pt → Pt) (hf : ∀ p, f p = .ok (h p))
+    (p : Poly) : Poly.tryMap f p = .ok (Poly.map h p) := by
+  have h2 := tryMapList_ok (tryMapList f) (fun r : List Pt => r.map h) (tryMapList_ok f h hf) p.ints
+  simp only [Poly.tryMap, tryMapList_ok f h hf p.ext, h2, Poly.map]
+
+mutual
+/-- [T] if the fallible function never fails, `try_map_coords` returns `Ok` of exactly what
+`map_coords` returns with the underlying total function — for every geometry, Rect and
+Triangle re-normalisation included. -/
+theorem tryMap_ok {ε} (f : Pt → Except ε Pt) (h : Pt → Pt) (hf : ∀ p, f p = .ok (h p)) :
+    ∀ g : Geom, tryMapCoords f g = .ok (mapCoords h g)
+  | .point p => by simp [tryMapCoords, mapCoords, hf]
+  | .line a b => by simp [tryMapCoords, mapCoords, hf]
+  | .lineString cs => by simp [tryMapCoords, mapCoords, tryMapList_ok f h hf]
+  | .polygon p => by simp [tryMapCoords, mapCoords, poly_tryMap_ok f h hf]
+  | .multiPoint ps => by simp [tryMapCoords, mapCoords, tryMapList_ok f h hf]
+  | .multiLineString ls => by
+      have h2 := tryMapList_ok (tryMapList f) (fun r : List Pt => r.map h) (tryMapList_ok f h hf) ls
+      simp [tryMapCoords, mapCoords, h2]
+  | .multiPolygon ps => by
+      have h2 := tryMapList_ok (Poly.tryMap f) (Poly.map h) (poly_tryMap_ok f h hf) ps
+      simp [tryMapCoords, mapCoords, h2]
+  | .rect mn mx => by simp [tryMapCoords, mapCoords, hf]
+  | .triangle a b c => by simp [tryMapCoords, mapCoords, hf]
+  | .collection gs => by simp [tryMapCoords, mapCoords, tryMap_ok_list f h hf gs]
+theorem tryMap_ok_list {ε} (f : Pt → Except ε Pt) (h : Pt → Pt) (hf : ∀ p, f p = .ok (h p)) :
+    ∀ gs : List Geom, tryMapCoordsList f gs = .ok (mapCoordsList h gs)
+  | [] => rfl
+  | g :: gs => by
+      simp [tryMapCoordsList, mapCoordsList, tryMap_ok f h hf g, tryMap_ok_list f h hf gs]
+end
+
+example : tryMapCoords (ε := String) (fun p => .ok ⟨p.y, p.x⟩)
+      (.collection [.triangle ⟨1, 1⟩ ⟨6, 3⟩ ⟨3, 5⟩, .rect ⟨0, 0⟩ ⟨1, 2⟩]) =
+    .ok (mapCoords (fun p => ⟨p.y, p.x⟩) (.collection [.triangle ⟨1, 1⟩ ⟨6, 3⟩ ⟨3, 5⟩, .rect ⟨0, 0⟩ ⟨1, 2⟩])) :=
+  tryMap_ok _ _ (fun _ => rfl) _
+
+/-- [T] `try_map` over a sequence fails with `e` exactly when some element fails with `e` and
+every element before it succeeds: the first failure in iteration order wins. -/
+theorem tryMapList_first_err {α β ε} (f : α → Except ε β) (e : ε) :
+    ∀ l : List α, tryMapList f l = .error e ↔
+      ∃ pre x post, l = pre ++ x :: post ∧ (∀ y ∈ pre, ∃ z, f y = .ok z) ∧ f x = .error e
+  | [] => by simp [tryMapList]
+  | a :: as => by
+      have ih := tryMapList_first_err f e as
+      constructor
+      · intro h
+        simp only [tryMapList] at h
+        cases hfa : f a with
+        | error e' =>
+          simp only [hfa] at h
+          cases h
+          exact ⟨[], a, as, rfl, by simp, hfa⟩
+        | ok b =>
+          simp only [hfa] at h
+          cases hr : tryMapList f as with
+          | ok bs => simp [hr] at h
+          | error e' =>
+            simp only [hr] at h
+            cases h
+            obtain ⟨pre, x, post, rfl, hpre, hx⟩ := ih.1 hr
+            refine ⟨a :: pre, x, post, rfl, ?_, hx⟩
+            intro y hy
+            rcases List.mem_cons.1 hy with rfl | hy
+            · exact ⟨b, hfa⟩
+            · exact hpre y hy
+      · rintro ⟨pre, x, post, hl, hpre, hx⟩
+        cases pre with
+        | nil =>
+          simp only [List.nil_append, List.cons.injEq] at hl
+          obtain ⟨rfl, rfl⟩ := hl
+          simp [tryMapList, hx]
+        | cons p pre =>
+          simp only [List.cons_append, List.cons.injEq] at hl
+          obtain ⟨rfl, rfl⟩ := hl
+          obtain ⟨z, hz⟩ := hpre a (List.mem_cons_self ..)
+          have : tryMapList f (pre ++ x :: post) = .error e :=
+            ih.2 ⟨pre, x, post, rfl, fun y hy => hpre y (List.mem_cons_of_mem _ hy), hx⟩
+          simp [tryMapList, hz, this]
+
+/-- [T] on success nothing failed and the result has the same length. -/
+theorem tryMapList_ok_iff {α β ε} (f : α → Except ε β) :
+    ∀ (l : List α) (r : List β), tryMapList f l = .ok r ↔ List.Forall₂ (fun a b => f a = .ok b) l r
+  | [], r => by
+      simp only [tryMapList, Except.ok.injEq]
+      constructor
+      · rintro rfl; exact .nil
+      · intro h; cases h; rfl
+  | a :: as, r => by
+      simp only [tryMapList]
+      cases hfa : f a with
+      | error e' =>
+        simp only [reduceCtorEq, false_iff]
+        intro h; cases h with | cons h1 _ => simp [hfa] at h1
+      | ok b =>
+        cases hr : tryMapList f as with
+        | error e' =>
+          simp only [reduceCtorEq, false_iff]
+          intro h
+          cases h with
+          | cons h1 h2 =>
+            have := (tryMapList_ok_iff f as _).2 h2
+            simp [hr] at this
+        | ok bs =>
+          simp only [Except.ok.injEq]
+          constructor
+          · rintro rfl
+            exact .cons hfa ((tryMapList_ok_iff f as bs).1 hr)
+          · intro h
+            cases h with
+            | cons h1 h2 =>
+              have := (tryMapList_ok_iff f as _).2 h2
+              rw [hr] at this
+              rw [hfa] at h1
+              cases this; cases h1; rfl
+
+mutual
+/-- The coordinates that `try_map_coords` feeds to the function, in order: the traversal, except
+for `Rect`, which feeds its two stored corners `min`, `max`. -/
+def fed : Geom → List Pt
+  | .collection gs => fedList gs
+  | .rect mn mx => [mn, mx]
+  | .point p => [p]
+  | .line a b => [a, b]
+  | .lineString cs => cs
+  | .polygon p => p.coords
+  | .multiPoint ps => ps
+  | .multiLineString ls => ls.flatten
+  | .multiPolygon ps => (ps.map Poly.coords).flatten
+  | .triangle a b c => [a, b, c]
+def fedList : List Geom → List Pt
+  | [] => []
+  | g :: gs => fed g ++ fedList gs
+end
+
+private theorem tryMapList_err_mem {α β ε} {f : α → Except ε β} {e : ε} {l : List α}
+    (h : tryMapList f l = .error e) : ∃ x ∈ l, f x = .error e := by
+  obtain ⟨pre, x, post, rfl, _, hx⟩ := (tryMapList_first_err f e l).1 h
+  exact ⟨x, by simp, hx⟩
+
+private theorem tryMapRings_err_mem {ε} {f : Pt → Except ε Pt} {e : ε} {ls : List (List Pt)}
+    (h : tryMapList (tryMapList f) ls = .error e) : ∃ x ∈ ls.flatten, f x = .error e := by
+  obtain ⟨r, hr, hx⟩ := tryMapList_err_mem h
+  obtain ⟨x, hx', hfx⟩ := tryMapList_err_mem hx
+  exact ⟨x, List.mem_flatten.2 ⟨r, hr, hx'⟩, hfx⟩
+
+private theorem poly_tryMap_err_mem {ε} {f : Pt → Except ε Pt} {e : ε} {p : Poly}
+    (h : Poly.tryMap f p = .error e) : ∃ x ∈ p.coords, f x = .error e := by
+  simp only [Poly.tryMap] at h
+  cases h1 : tryMapList f p.ext with
+  | error e' =>
+    simp only [h1] at h; cases h
+    obtain ⟨x, hx, hfx⟩ := tryMapList_err_mem h1
+    exact ⟨x, by simp [Poly.coords, hx], hfx⟩
+  | ok e' =>
+    simp only [h1] at h
+    cases h2 : tryMapList (tryMapList f) p.ints with
+    | error e'' =>
+      simp only [h2] at h; cases h
+      obtain ⟨x, hx, hfx⟩ := tryMapRings_err_mem h2
+      exact ⟨x, by simp only [Poly.coords, List.mem_append]; exact Or.inr hx, hfx⟩
+    | ok is' => simp [h2] at h
+
+mutual
+/-- [T] an `Err` of `try_map_coords` is the `Err` the function returned on one of the
+coordinates it was fed (no error is invented, none is replaced). -/
+theorem tryMap_err_mem {ε} (f : Pt → Except ε Pt) (e : ε) :
+    ∀ g : Geom, tryMapCoords f g = .error e → ∃ p ∈ fed g, f p = .error e
+  | .point p, h => by
+      simp only [tryMapCoords] at h
+      cases hp : f p with
+      | error e' => simp only [hp] at h; cases h; exact ⟨p, by simp [fed], hp⟩
+      | ok q => simp [hp] at h
+  | .line a b, h => by
+      simp only [tryMapCoords] at h
+      cases ha : f a with
+      | error e' => simp only [ha] at h; cases h; exact ⟨a, by simp [fed], ha⟩
+      | ok a' =>
+        simp only [ha] at h
+        cases hb : f b with
+        | error e' => simp only [hb] at h; cases h; exact ⟨b, by simp [fed], hb⟩
+        | ok b' => simp [hb] at h
+  | .lineString cs, h => by
+      simp only [tryMapCoords] at h
+      cases hc : tryMapList f cs with
+      | error e' => simp only [hc] at h; cases h; simpa [fed] using tryMapList_err_mem hc
+      | ok r => simp [hc] at h
+  | .polygon p, h => by
+      simp only [tryMapCoords] at h
+      cases hc : Poly.tryMap f p with
+      | error e' => simp only [hc] at h; cases h; simpa [fed] using poly_tryMap_err_mem hc
+      | ok r => simp [hc] at h
+  | .multiPoint cs, h => by
+      simp only [tryMapCoords] at h
+      cases hc : tryMapList f cs with
+      | error e' => simp only [hc] at h; cases h; simpa [fed] using tryMapList_err_mem hc
+      | ok r => simp [hc] at h
+  | .multiLineString ls, h => by
+      simp only [tryMapCoords] at h
+      cases hc : tryMapList (tryMapList f) ls with
+      | error e' =>
+        simp only [hc] at h; cases h
+        simpa only [fed] using tryMapRings_err_mem hc
+      | ok r => simp [hc] at h
+  | .multiPolygon ps, h => by
+      simp only [tryMapCoords] at h
+      cases hc : tryMapList (Poly.tryMap f) ps with
+      | error e' =>
+        simp only [hc] at h; cases h
+        obtain ⟨p, hp, hpe⟩ := tryMapList_err_mem hc
+        obtain ⟨x, hx, hfx⟩ := poly_tryMap_err_mem hpe
+        exact ⟨x, by simp only [fed, List.mem_flatten, List.mem_map]; exact ⟨_, ⟨p, hp, rfl⟩, hx⟩, hfx⟩
+      | ok r => simp [hc] at h
+  | .rect mn mx, h => by
+      simp only [tryMapCoords] at h
+      cases ha : f mn with
+      | error e' => simp only [ha] at h; cases h; exact ⟨mn, by simp [fed], ha⟩
+      | ok a' =>
+        simp only [ha] at h
+        cases hb : f mx with
+        | error e' => simp only [hb] at h; cases h; exact ⟨mx, by simp [fed], hb⟩
+        | ok b' => simp [hb] at h
+  | .triangle a b c, h => by
+      simp only [tryMapCoords] at h
+      cases ha : f a with
+      | error e' => simp only [ha] at h; cases h; exact ⟨a, by simp [fed], ha⟩
+      | ok a' =>
+        simp only [ha] at h
+        cases hb : f b with
+        | error e' => simp only [hb] at h; cases h; exact ⟨b, by simp [fed], hb⟩
+        | ok b' =>
+          simp only [hb] at h
+          cases hc : f c with
+          | error e' => simp only [hc] at h; cases h; exact ⟨c, by simp [fed], hc⟩
+          | ok c' => simp [hc] at h
+  | .collection gs, h => by
+      simp only [tryMapCoords] at h
+      cases hc : tryMapCoordsList f gs with
+      | error e' =>
+        simp only [hc] at h; cases h
+        simpa only [fed] using tryMap_err_mem_list f e gs hc
+      | ok r => simp [hc] at h
+theorem tryMap_err_mem_list {ε} (f : Pt → Except ε Pt) (e : ε) :
+    ∀ gs : List Geom, tryMapCoordsList f gs = .error e → ∃ p ∈ fedList gs, f p = .error e
+  | [], h => by simp [tryMapCoordsList] at h
+  | g :: gs, h => by
+      simp only [tryMapCoordsList] at h
+      cases hg : tryMapCoords f g with
+      | error e' =>
+        simp only [hg] at h; cases h
+        obtain ⟨p, hp, hfp⟩ := tryMap_err_mem f e g hg
+        exact ⟨p, by simp [fedList, hp], hfp⟩
+      | ok g' =>
+        simp only [hg] at h
+        cases hgs : tryMapCoordsList f gs with
+        | error e' =>
+          simp only [hgs] at h; cases h
+          obtain ⟨p, hp, hfp⟩ := tryMap_err_mem_list f e gs hgs
+          exact ⟨p, by simp [fedList, hp], hfp⟩
+        | ok gs' => simp [hgs] at h
+end
+
+/-- Non-vacuity: a function failing on negative x; the first failing coordinate in traversal
+order, (-1, 0), determines the error, not the later (-2, 5). -/
+example : tryMapCoords (fun p => if p.x < 0 then .error p else .ok p)
+      (.collection [.point ⟨1, 1⟩, .lineString [⟨2, 0⟩, ⟨-1, 0⟩, ⟨-2, 5⟩]]) = .error ⟨-1, 0⟩ := by
+  norm_num [tryMapCoords, tryMapCoordsList, tryMapList]
+
+/-! ### the first failure in traversal order wins, on the whole tree -/
+
+/-- The error of a `Result`, if any. -/
+def errOf {ε α} : Except ε α → Option ε
+  | .error e => some e
+  | .ok _ => none
+
+private theorem errOf_tryMapList_cons {α β ε} (f : α → Except ε β) (a : α) (as : List α) :
+    errOf (tryMapList f (a :: as)) = (errOf (f a)).or (errOf (tryMapList f as)) := by
+  simp only [tryMapList]
+  cases f a <;> cases tryMapList f as <;> simp [errOf]
+
+private theorem errOf_tryMapList_append {α β ε} (f : α → Except ε β) :
+    ∀ l1 l2 : List α,
+      errOf (tryMapList f (l1 ++ l2)) = (errOf (tryMapList f l1)).or (errOf (tryMapList f l2))
+  | [], l2 => by simp [tryMapList, errOf]
+  | a :: l1, l2 => by
+      rw [List.cons_append, errOf_tryMapList_cons, errOf_tryMapList_cons,
+        errOf_tryMapList_append f l1 l2, Option.or_assoc]
+
+private theorem errOf_tryMapRings {ε} (f : Pt → Except ε Pt) :
+    ∀ ls : List (List Pt), errOf (tryMapList (tryMapList f) ls) = errOf (tryMapList f ls.flatten)
+  | [] => rfl
+  | r :: ls => by
+      rw [errOf_tryMapList_cons, List.flatten_cons, errOf_tryMapList_append, errOf_tryMapRings f ls]
+
+private theorem errOf_poly_tryMap {ε} (f : Pt → Except ε Pt) (p : Poly) :
+    errOf (Poly.tryMap f p) = errOf (tryMapList f p.coords) := by
+  rw [Poly.coords, errOf_tryMapList_append, ← errOf_tryMapRings]
+  simp only [Poly.tryMap]
+  cases tryMapList f p.ext <;> cases tryMapList (tryMapList f) p.ints <;> simp [errOf]
+
+private theorem errOf_tryMapPolys {ε} (f : Pt → Except ε Pt) :
+    ∀ ps : List Poly,
+      errOf (tryMapList (Poly.tryMap f) ps) = errOf (tryMapList f (ps.map Poly.coords).flatten)
+  | [] => rfl
+  | p :: ps => by
+      rw [errOf_tryMapList_cons, List.map_cons, List.flatten_cons, errOf_tryMapList_append,
+        errOf_tryMapPolys f ps, errOf_poly_tryMap]
+
+mutual
+/-- [T] `try_map_coords` fails exactly like the plain left-to-right `try_map` over the
+coordinates it feeds (`fed g`: the traversal; the two stored corners for `Rect`): same error,
+or no error — for every geometry and nesting. -/
+theorem tryMap_err_eq {ε} (f : Pt → Except ε Pt) :
+    ∀ g : Geom, errOf (tryMapCoords f g) = errOf (tryMapList f (fed g))
+  | .point p => by
+      simp only [tryMapCoords, fed, tryMapList]
+      cases f p <;> simp [errOf]
+  | .line a b => by
+      simp only [tryMapCoords, fed, tryMapList]
+      cases f a <;> cases f b <;> simp [errOf]
+  | .lineString cs => by
+      simp only [tryMapCoords, fed]; cases tryMapList f cs <;> rfl
+  | .polygon p => by
+      simp only [tryMapCoords, fed]; rw [← errOf_poly_tryMap]; cases Poly.tryMap f p <;> rfl
+  | .multiPoint ps => by
+      simp only [tryMapCoords, fed]; cases tryMapList f ps <;> rfl
+  | .multiLineString ls => by
+      simp only [tryMapCoords, fed]; rw [← errOf_tryMapRings]
+      cases tryMapList (tryMapList f) ls <;> rfl
+  | .multiPolygon ps => by
+      simp only [tryMapCoords, fed]; rw [← errOf_tryMapPolys]
+      cases tryMapList (Poly.tryMap f) ps <;> rfl
+  | .rect mn mx => by
+      simp only [tryMapCoords, fed, tryMapList]
+      cases f mn <;> cases f mx <;> simp [errOf]
+  | .triangle a b c => by
+      simp only [tryMapCoords, fed, tryMapList]
+      cases f a <;> cases f b <;> cases f c <;> simp [errOf]
+  | .collection gs => by
+      simp only [tryMapCoords, fed]; rw [← tryMap_err_eq_list f gs]
+      cases tryMapCoordsList f gs <;> rfl
+theorem tryMap_err_eq_list {ε} (f : Pt → Except ε Pt) :
+    ∀ gs : List Geom, errOf (tryMapCoordsList f gs) = errOf (tryMapList f (fedList gs))
+  | [] => rfl
+  | g :: gs => by
+      rw [fedList, errOf_tryMapList_append, ← tryMap_err_eq f g, ← tryMap_err_eq_list f gs]
+      simp only [tryMapCoordsList]
+      cases tryMapCoords f g <;> cases tryMapCoordsList f gs <;> simp [errOf]
+end
+
+/-- [T] the first failure in traversal order wins: `try_map_coords f g` is `Err e` exactly when
+some fed coordinate fails with `e` and every coordinate fed before it succeeds. -/
+theorem tryMap_first_err {ε} (f : Pt → Except ε Pt) (g : Geom) (e : ε) :
+    tryMapCoords f g = .error e ↔
+      ∃ pre x post, fed g = pre ++ x :: post ∧ (∀ y ∈ pre, ∃ z, f y = .ok z) ∧ f x = .error e := by
+  rw [← tryMapList_first_err]
+  have := tryMap_err_eq f g
+  cases h1 : tryMapCoords f g <;> cases h2 : tryMapList f (fed g) <;>
+    simp [h1, h2, errOf] at this ⊢
+  rw [this]
+
+example : tryMapCoords (fun p => if p.x < 0 then .error p else .ok p)
+      (.collection [.point ⟨1, 1⟩, .lineString [⟨2, 0⟩, ⟨-1, 0⟩, ⟨-2, 5⟩]]) = .error ⟨-1, 0⟩ :=
+  (tryMap_first_err _ _ _).2 ⟨[⟨1, 1⟩, ⟨2, 0⟩], ⟨-1, 0⟩, [⟨-2, 5⟩], rfl,
+    by intro y hy; simp at hy; rcases hy with rfl | rfl <;> norm_num,
+    by norm_num⟩
+
+/-! ## 5. `bounding_rect` is the component-wise minimum and maximum of the (exterior) traversal -/
+
+/-- `lo` / `hi` are the minimum / maximum of the non-empty list `vs`: they bound every member
+and are members. -/
+def IsMinMax (vs : List Rat) (lo hi : Rat) : Prop :=
+  (∀ v ∈ vs, lo ≤ v ∧ v ≤ hi) ∧ lo ∈ vs ∧ hi ∈ vs
+
+/-- `(mn, mx)` is the component-wise minimum and maximum of the coordinates `cs`. -/
+def IsBBox (cs : List Pt) (mn mx : Pt) : Prop :=
+  IsMinMax (cs.map Pt.x) mn.x mx.x ∧ IsMinMax (cs.map Pt.y) mn.y mx.y
+
+theorem IsMinMax.le {vs lo hi} (h : IsMinMax vs lo hi) : lo ≤ hi := (h.1 lo h.2.1).2
+
+theorem IsMinMax.ne_nil {vs lo hi} (h : IsMinMax vs lo hi) : vs ≠ [] :=
+  List.ne_nil_of_mem h.2.1
+
+/-- [T] minimum and maximum are unique: `IsMinMax` determines `lo` and `hi`. -/
+theorem IsMinMax.unique {vs lo hi lo' hi'} (h : IsMinMax vs lo hi) (h' : IsMinMax vs lo' hi') :
+    lo = lo' ∧ hi = hi' :=
+  ⟨le_antisymm (h.1 lo' h'.2.1).1 (h'.1 lo h.2.1).1, le_antisymm (h'.1 hi h.2.2).2 (h.1 hi' h'.2.2).2⟩
+
+/-- [T] `IsBBox` spelled out on coordinates: every coordinate is inside, every bound is attained. -/
+theorem isBBox_iff (cs : List Pt) (mn mx : Pt) :
+    IsBBox cs mn mx ↔
+      (∀ p ∈ cs, mn.x ≤ p.x ∧ p.x ≤ mx.x ∧ mn.y ≤ p.y ∧ p.y ≤ mx.y) ∧
+      (∃ p ∈ cs, p.x = mn.x) ∧ (∃ p ∈ cs, p.x = mx.x) ∧
+      (∃ p ∈ cs, p.y = mn.y) ∧ (∃ p ∈ cs, p.y = mx.y) := by
+  simp only [IsBBox, IsMinMax, List.mem_map, forall_exists_index, and_imp,
+    forall_apply_eq_imp_iff₂]
+  constructor
+  · rintro ⟨⟨hx, hx1, hx2⟩, ⟨hy, hy1, hy2⟩⟩
+    exact ⟨fun p hp => ⟨(hx p hp).1, (hx p hp).2, (hy p hp).1, (hy p hp).2⟩, hx1, hx2, hy1, hy2⟩
+  · rintro ⟨h, hx1, hx2, hy1, hy2⟩
+    exact ⟨⟨fun p hp => ⟨(h p hp).1, (h p hp).2.1⟩, hx1, hx2⟩,
+      ⟨fun p hp => ⟨(h p hp).2.2.1, (h p hp).2.2.2⟩, hy1, hy2⟩⟩
+
+/-! ### the running `get_min_max` fold -/
+
+private def mmStep (acc : Rat × Rat) (v : Rat) : Rat × Rat := getMinMax v acc.1 acc.2
+
+private theorem getMinMax_spec (v mn mx : Rat) (h : mn ≤ mx) :
+    (getMinMax v mn mx).1 ≤ (getMinMax v mn mx).2 ∧
+    (getMinMax v mn mx).1 ≤ mn ∧ mx ≤ (getMinMax v mn mx).2 ∧
+    (getMinMax v mn mx).1 ≤ v ∧ v ≤ (getMinMax v mn mx).2 ∧
+    ((getMinMax v mn mx).1 = mn ∨ (getMinMax v mn mx).1 = v) ∧
+    ((getMinMax v mn mx).2 = mx ∨ (getMinMax v mn mx).2 = v) := by
+  by_cases h1 : v > mx
+  · have e : getMinMax v mn mx = (mn, v) := by simp [getMinMax, h1]
+    rw [e]
+    exact ⟨le_of_lt (lt_of_le_of_lt h h1), le_refl _, le_of_lt h1, le_of_lt (lt_of_le_of_lt h h1),
+      le_refl _, Or.inl rfl, Or.inr rfl⟩
+  · by_cases h2 : v < mn
+    · have e : getMinMax v mn mx = (v, mx) := by simp [getMinMax, h1, h2]
+      rw [e]
+      exact ⟨le_trans (le_of_lt h2) h, le_of_lt h2, le_refl _, le_refl _, le_trans (le_of_lt h2) h,
+        Or.inr rfl, Or.inl rfl⟩
+    · have e : getMinMax v mn mx = (mn, mx) := by simp [getMinMax, h1, h2]
+      rw [e]
+      exact ⟨h, le_refl _, le_refl _, not_lt.1 h2, not_lt.1 h1, Or.inl rfl, Or.inl rfl⟩
+
+/-- Invariant of the fold (this is where `min ≤ max` is needed: the `else if` skips the
+`p < min` test after `p > max`, which is sound only because `min ≤ max`). -/
+private theorem mmFold_spec : ∀ (vs : List Rat) (acc : Rat × Rat), acc.1 ≤ acc.2 →
+    (vs.foldl mmStep acc).1 ≤ (vs.foldl mmStep acc).2 ∧
+    (vs.foldl mmStep acc).1 ≤ acc.1 ∧ acc.2 ≤ (vs.foldl mmStep acc).2 ∧
+    (∀ v ∈ vs, (vs.foldl mmStep acc).1 ≤ v ∧ v ≤ (vs.foldl mmStep acc).2) ∧
+    ((vs.foldl mmStep acc).1 = acc.1 ∨ (vs.foldl mmStep acc).1 ∈ vs) ∧
+    ((vs.foldl mmStep acc).2 = acc.2 ∨ (vs.foldl mmStep acc).2 ∈ vs)
+  | [], acc, h => by simp [h]
+  | v :: vs, acc, h => by
+      obtain ⟨s1, s2, s3, s4, s5, s6, s7⟩ := getMinMax_spec v acc.1 acc.2 h
+      obtain ⟨i1, i2, i3, i4, i5, i6⟩ := mmFold_spec vs (mmStep acc v) s1
+      simp only [List.foldl_cons, List.mem_cons, forall_eq_or_imp]
+      simp only [mmStep] at i2 i3 i5 i6
+      refine ⟨i1, le_trans i2 s2, le_trans s3 i3, ⟨⟨le_trans i2 s4, le_trans s5 i3⟩, i4⟩, ?_, ?_⟩
+      · rcases i5 with e | m
+        · rcases s6 with e' | e'
+          · exact Or.inl (e.trans e')
+          · exact Or.inr (Or.inl (e.trans e'))
+        · exact Or.inr (Or.inr m)
+      · rcases i6 with e | m
+        · rcases s7 with e' | e'
+          · exact Or.inl (e.trans e')
+          · exact Or.inr (Or.inl (e.trans e'))
+        · exact Or.inr (Or.inr m)
+
+private theorem mmFold_isMinMax (v0 : Rat) (vs : List Rat) :
+    IsMinMax (v0 :: vs) (vs.foldl mmStep (v0, v0)).1 (vs.foldl mmStep (v0, v0)).2 := by
+  obtain ⟨_, i2, i3, i4, i5, i6⟩ := mmFold_spec vs (v0, v0) (le_refl _)
+  refine ⟨?_, ?_, ?_⟩
+  · intro v hv
+    rcases List.mem_cons.1 hv with rfl | hv
+    · exact ⟨i2, i3⟩
+    · exact i4 v hv
+  · rcases i5 with e | m
+    · rw [e]; exact List.mem_cons_self ..
+    · exact List.mem_cons_of_mem _ m
+  · rcases i6 with e | m
+    · rw [e]; exact List.mem_cons_self ..
+    · exact List.mem_cons_of_mem _ m
+
+private theorem bbFold_split (rest : List Pt) : ∀ (a b : Rat × Rat),
+    rest.foldl (fun (acc : (Rat × Rat) × (Rat × Rat)) q =>
+      (getMinMax q.x acc.1.1 acc.1.2, getMinMax q.y acc.2.1 acc.2.2)) (a, b)
+    = ((rest.map Pt.x).foldl mmStep a, (rest.map Pt.y).foldl mmStep b) := by
+  induction rest with
+  | nil => intro a b; rfl
+  | cons q rest ih => intro a b; simp only [List.foldl_cons, List.map_cons, ih]; rfl
+
+private theorem rectNewPts_of_le {a b : Pt} (hx : a.x ≤ b.x) (hy : a.y ≤ b.y) :
+    rectNewPts a b = (a, b) := by
+  simp [rectNewPts, rectNew_of_le hx hy]
+
+private theorem rectNewPts_mk {ax ay bx by' : Rat} (hx : ax ≤ bx) (hy : ay ≤ by') :
+    rectNewPts ⟨ax, ay⟩ ⟨bx, by'⟩ = (⟨ax, ay⟩, ⟨bx, by'⟩) :=
+  rectNewPts_of_le (a := ⟨ax, ay⟩) (b := ⟨bx, by'⟩) hx hy
+
+/-- Closed form of `get_bounding_rect` on a non-empty slice: the final `Rect::new` is the
+identity because the fold keeps `min ≤ max`. -/
+private theorem getBoundingRect_cons (p : Pt) (rest : List Pt) :
+    getBoundingRect (p :: rest) =
+      some (⟨((rest.map Pt.x).foldl mmStep (p.x, p.x)).1, ((rest.map Pt.y).foldl mmStep (p.y, p.y)).1⟩,
+            ⟨((rest.map Pt.x).foldl mmStep (p.x, p.x)).2, ((rest.map Pt.y).foldl mmStep (p.y, p.y)).2⟩) := by
+  have hx := (mmFold_isMinMax p.x (rest.map Pt.x)).le
+  have hy := (mmFold_isMinMax p.y (rest.map Pt.y)).le
+  simp only [getBoundingRect, bbFold_split]
+  rw [rectNewPts_mk hx hy]
+
+/-- [T] `get_bounding_rect` is `None` exactly on the empty slice. -/
+theorem getBoundingRect_none_iff (cs : List Pt) : getBoundingRect cs = none ↔ cs = [] := by
+  cases cs with
+  | nil => simp [getBoundingRect]
+  | cons p rest => simp [getBoundingRect_cons]
+
+/-- The specification of an optional bounding box of the coordinates `cs`. -/
+def BBoxSpec (o : Option (Pt × Pt)) (cs : List Pt) : Prop :=
+  match o with
+  | none => cs = []
+  | some r => IsBBox cs r.1 r.2
+
+private theorem getBoundingRect_spec (cs : List Pt) : BBoxSpec (getBoundingRect cs) cs := by
+  cases cs with
+  | nil => simp [getBoundingRect, BBoxSpec]
+  | cons p rest =>
+    rw [getBoundingRect_cons]
+    exact ⟨mmFold_isMinMax p.x (rest.map Pt.x), mmFold_isMinMax p.y (rest.map Pt.y)⟩
+
+/-- [T] `get_bounding_rect` returns the component-wise minimum and maximum: every coordinate is
+inside, and each of the four bounds is attained by some coordinate. -/
+theorem getBoundingRect_bounds (cs : List Pt) (mn mx : Pt) (h : getBoundingRect cs = some (mn, mx)) :
+    (∀ p ∈ cs, mn.x ≤ p.x ∧ p.x ≤ mx.x ∧ mn.y ≤ p.y ∧ p.y ≤ mx.y) ∧
+    (∃ p ∈ cs, p.x = mn.x) ∧ (∃ p ∈ cs, p.x = mx.x) ∧
+    (∃ p ∈ cs, p.y = mn.y) ∧ (∃ p ∈ cs, p.y = mx.y) := by
+  have := getBoundingRect_spec cs
+  rw [h] at this
+  exact (isBBox_iff cs mn mx).1 this
+
+example : getBoundingRect [⟨3, 1⟩, ⟨-2, 5⟩, ⟨0, -7⟩, ⟨3, 5⟩] = some (⟨-2, -7⟩, ⟨3, 5⟩) := by
+  simp only [getBoundingRect, List.foldl, getMinMax, rectNewPts, SM.rectNew]
+  norm_num
+
+/-! ### lifting through the geometry tree -/
+
+private theorem partialMin_spec (a b : Rat) :
+    partialMin a b ≤ a ∧ partialMin a b ≤ b ∧ (partialMin a b = a ∨ partialMin a b = b) := by
+  by_cases h : a < b
+  · have e : partialMin a b = a := by simp [partialMin, h]
+    rw [e]; exact ⟨le_refl _, le_of_lt h, Or.inl rfl⟩
+  · have e : partialMin a b = b := by simp [partialMin, h]
+    rw [e]; exact ⟨not_lt.1 h, le_refl _, Or.inr rfl⟩
+
+private theorem partialMax_spec (a b : Rat) :
+    a ≤ partialMax a b ∧ b ≤ partialMax a b ∧ (partialMax a b = a ∨ partialMax a b = b) := by
+  by_cases h : a > b
+  · have e : partialMax a b = a := by simp [partialMax, h]
+    rw [e]; exact ⟨le_refl _, le_of_lt h, Or.inl rfl⟩
+  · have e : partialMax a b = b := by simp [partialMax, h]
+    rw [e]; exact ⟨not_lt.1 h, le_refl _, Or.inr rfl⟩
+
+private theorem isMinMax_append {l1 l2 : List Rat} {a1 b1 a2 b2 : Rat}
+    (h1 : IsMinMax l1 a1 b1) (h2 : IsMinMax l2 a2 b2) :
+    IsMinMax (l1 ++ l2) (partialMin a1 a2) (partialMax b1 b2) := by
+  obtain ⟨m1, m2, m3⟩ := partialMin_spec a1 a2
+  obtain ⟨x1, x2, x3⟩ := partialMax_spec b1 b2
+  refine ⟨?_, ?_, ?_⟩
+  · intro v hv
+    rcases List.mem_append.1 hv with hv | hv
+    · exact ⟨le_trans m1 (h1.1 v hv).1, le_trans (h1.1 v hv).2 x1⟩
+    · exact ⟨le_trans m2 (h2.1 v hv).1, le_trans (h2.1 v hv).2 x2⟩
+  · rcases m3 with e | e <;> rw [e]
+    · exact List.mem_append_left _ h1.2.1
+    · exact List.mem_append_right _ h2.2.1
+  · rcases x3 with e | e <;> rw [e]
+    · exact List.mem_append_left _ h1.2.2
+    · exact List.mem_append_right _ h2.2.2
+
+/-- [T] `bounding_rect_merge` of the boxes of two coordinate sets is the box of their union. -/
+theorem bboxMerge_spec {l1 l2 : List Pt} {r1 r2 : Pt × Pt}
+    (h1 : IsBBox l1 r1.1 r1.2) (h2 : IsBBox l2 r2.1 r2.2) :
+    IsBBox (l1 ++ l2) (bboxMerge r1 r2).1 (bboxMerge r1 r2).2 := by
+  have hx := isMinMax_append h1.1 h2.1
+  have hy := isMinMax_append h1.2 h2.2
+  unfold bboxMerge
+  rw [rectNewPts_mk hx.le hy.le]
+  simp only [IsBBox, List.map_append]
+  exact ⟨hx, hy⟩
+
+private theorem bboxFoldStep_spec {l1 l2 : List Pt} {a o : Option (Pt × Pt)}
+    (h1 : BBoxSpec a l1) (h2 : BBoxSpec o l2) : BBoxSpec (bboxFoldStep a o) (l1 ++ l2) := by
+  cases a with
+  | none =>
+    cases o with
+    | none => simp only [BBoxSpec] at h1 h2 ⊢; simp [bboxFoldStep, h1, h2]
+    | some r => simp only [BBoxSpec] at h1 h2 ⊢; simpa [bboxFoldStep, h1] using h2
+  | some r1 =>
+    cases o with
+    | none => simp only [BBoxSpec] at h1 h2 ⊢; simpa [bboxFoldStep, h2] using h1
+    | some r2 => exact bboxMerge_spec h1 h2
+
+mutual
+/-- Every `Rect` member satisfies `min ≤ max` (the C18 invariant `rect_new_le`: every `Rect`
+built through the API satisfies it; the model type admits others). -/
+def rectsValid : Geom → Bool
+  | .rect mn mx => decide (mn.x ≤ mx.x) && decide (mn.y ≤ mx.y)
+  | .collection gs => rectsValidList gs
+  | .point _ | .line _ _ | .lineString _ | .polygon _ | .multiPoint _ | .multiLineString _
+  | .multiPolygon _ | .triangle _ _ _ => true
+def rectsValidList : List Geom → Bool
+  | [] => true
+  | g :: gs => rectsValid g && rectsValidList gs
+end
+
+private theorem isMinMax_pair (u v : Rat) :
+    IsMinMax [u, v] (if u < v then (u, v) else (v, u)).1 (if u < v then (u, v) else (v, u)).2 := by
+  by_cases h : u < v
+  · rw [if_pos h]
+    refine ⟨?_, by simp, by simp⟩
+    intro w hw
+    simp only [List.mem_cons, List.not_mem_nil, or_false] at hw
+    rcases hw with rfl | rfl
+    · exact ⟨le_refl _, le_of_lt h⟩
+    · exact ⟨le_of_lt h, le_refl _⟩
+  · rw [if_neg h]
+    refine ⟨?_, by simp, by simp⟩
+    intro w hw
+    simp only [List.mem_cons, List.not_mem_nil, or_false] at hw
+    rcases hw with rfl | rfl
+    · exact ⟨not_lt.1 h, le_refl _⟩
+    · exact ⟨le_refl _, not_lt.1 h⟩
+
+private theorem rectNewPts_isBBox (a b : Pt) : IsBBox [a, b] (rectNewPts a b).1 (rectNewPts a b).2 := by
+  have hx := isMinMax_pair a.x b.x
+  have hy := isMinMax_pair a.y b.y
+  simp only [IsBBox, rectNewPts, SM.rectNew, List.map]
+  exact ⟨hx, hy⟩
+
+private theorem rect_isBBox (mn mx : Pt) (hx : mn.x ≤ mx.x) (hy : mn.y ≤ mx.y) :
+    IsBBox (rectCoords mn mx) mn mx := by
+  simp only [IsBBox, rectCoords, List.map]
+  refine ⟨⟨?_, by simp, by simp⟩, ⟨?_, by simp, by simp⟩⟩
+  · intro w hw
+    simp only [List.mem_cons, List.not_mem_nil, or_false] at hw
+    rcases hw with rfl | rfl | rfl | rfl
+    exacts [⟨hx, le_refl _⟩, ⟨hx, le_refl _⟩, ⟨le_refl _, hx⟩, ⟨le_refl _, hx⟩]
+  · intro w hw
+    simp only [List.mem_cons, List.not_mem_nil, or_false] at hw
+    rcases hw with rfl | rfl | rfl | rfl
+    exacts [⟨le_refl _, hy⟩, ⟨hy, le_refl _⟩, ⟨hy, le_refl _⟩, ⟨le_refl _, hy⟩]
+
+mutual
+/-- [T] the bounding box the code computes is `None` when the exterior traversal is empty and
+otherwise the component-wise min/max of the exterior traversal — every geometry, every nesting
+(collections merge with `bounding_rect_merge`, skipping empty members). -/
+theorem bbox_spec : ∀ g : Geom, rectsValid g = true → BBoxSpec (boundingRect g) (exteriorCoords g)
+  | .point p, _ => by
+      have := rectNewPts_isBBox p p
+      simp only [boundingRect, exteriorCoords, BBoxSpec]
+      simp only [IsBBox, IsMinMax, List.map, List.mem_cons, List.not_mem_nil, or_false, or_self,
+        forall_eq] at this ⊢
+      exact this
+  | .line a b, _ => rectNewPts_isBBox a b
+  | .lineString cs, _ => getBoundingRect_spec cs
+  | .polygon p, _ => getBoundingRect_spec p.ext
+  | .multiPoint ps, _ => getBoundingRect_spec ps
+  | .multiLineString ls, _ => getBoundingRect_spec ls.flatten
+  | .multiPolygon ps, _ => getBoundingRect_spec _
+  | .rect mn mx, h => by
+      simp only [rectsValid, Bool.and_eq_true, decide_eq_true_eq] at h
+      exact rect_isBBox mn mx h.1 h.2
+  | .triangle a b c, _ => getBoundingRect_spec [a, b, c]
+  | .collection gs, h => by
+      simp only [rectsValid] at h
+      have := bbox_spec_list gs none [] rfl h
+      simpa only [boundingRect, exteriorCoords, List.nil_append] using this
+theorem bbox_spec_list : ∀ (gs : List Geom) (acc : Option (Pt × Pt)) (pre : List Pt),
+    BBoxSpec acc pre → rectsValidList gs = true →
+      BBoxSpec (boundingRectList acc gs) (pre ++ exteriorCoordsList gs)
+  | [], acc, pre, ha, _ => by simpa [boundingRectList, exteriorCoordsList] using ha
+  | g :: gs, acc, pre, ha, h => by
+      simp only [rectsValidList, Bool.and_eq_true] at h
+      have hs := bboxFoldStep_spec ha (bbox_spec g h.1)
+      have := bbox_spec_list gs _ _ hs h.2
+      simpa only [boundingRectList, exteriorCoordsList, List.append_assoc] using this
+end
+
+/-- [T] `bounding_rect` is the component-wise minimum and maximum of the *exterior* traversal
+(that it ranges over the exterior only is known finding K6; see `bbox_bounds_coords` and
+`bbox_ignores_hole_witness`): every exterior coordinate is inside and every bound is attained.
+Hypothesis: Rect members are valid (`min ≤ max`, the C18 invariant) — `Rect::bounding_rect`
+returns the stored corners as they are. -/
+theorem bbox_bounds (g : Geom) (hv : rectsValid g = true) (mn mx : Pt)
+    (h : boundingRect g = some (mn, mx)) :
+    (∀ p ∈ exteriorCoords g, mn.x ≤ p.x ∧ p.x ≤ mx.x ∧ mn.y ≤ p.y ∧ p.y ≤ mx.y) ∧
+    (∃ p ∈ exteriorCoords g, p.x = mn.x) ∧ (∃ p ∈ exteriorCoords g, p.x = mx.x) ∧
+    (∃ p ∈ exteriorCoords g, p.y = mn.y) ∧ (∃ p ∈ exteriorCoords g, p.y = mx.y) := by
+  have := bbox_spec g hv
+  rw [h] at this
+  exact (isBBox_iff _ mn mx).1 this
+
+/-- [T] … and it is the only such pair: any `(mn', mx')` bounding the exterior traversal and
+attained by it equals the computed box. -/
+theorem bbox_unique (g : Geom) (hv : rectsValid g = true) (mn mx mn' mx' : Pt)
+    (h : boundingRect g = some (mn, mx)) (h' : IsBBox (exteriorCoords g) mn' mx') :
+    mn = mn' ∧ mx = mx' := by
+  have := bbox_spec g hv
+  rw [h] at this
+  have hx := this.1.unique h'.1
+  have hy := this.2.unique h'.2
+  obtain ⟨a, b⟩ := mn; obtain ⟨c, d⟩ := mx; obtain ⟨a', b'⟩ := mn'; obtain ⟨c', d'⟩ := mx'
+  simp only at hx hy
+  simp [hx.1, hx.2, hy.1, hy.2]
+
+example : (∀ p ∈ exteriorCoords (.collection [.point ⟨3, 1⟩, .multiPoint [], .lineString [⟨-2, 5⟩, ⟨0, -7⟩]]),
+      (-2 : Rat) ≤ p.x ∧ p.x ≤ 3 ∧ (-7 : Rat) ≤ p.y ∧ p.y ≤ 5) := by
+  have h : boundingRect (.collection [.point ⟨3, 1⟩, .multiPoint [], .lineString [⟨-2, 5⟩, ⟨0, -7⟩]])
+      = some (⟨-2, -7⟩, ⟨3, 5⟩) := by
+    simp only [boundingRect, boundingRectList, bboxFoldStep, bboxMerge, getBoundingRect, List.foldl,
+      getMinMax, rectNewPts, SM.rectNew, partialMin, partialMax]
+    norm_num
+  exact (bbox_bounds _ (by decide) _ _ h).1
+
+private theorem bboxFoldStep_none_iff (a o : Option (Pt × Pt)) :
+    bboxFoldStep a o = none ↔ a = none ∧ o = none := by
+  cases a <;> cases o <;> simp [bboxFoldStep]
+
+mutual
+/-- [T] `bounding_rect` is `None` exactly when the exterior traversal is empty (Point, Line,
+Rect, Triangle — whose Rust return type is not optional — are never `None`, and never empty). -/
+theorem bbox_none_iff : ∀ g : Geom, boundingRect g = none ↔ exteriorCoords g = []
+  | .point _ => by simp [boundingRect, exteriorCoords]
+  | .line _ _ => by simp [boundingRect, exteriorCoords]
+  | .lineString cs => getBoundingRect_none_iff cs
+  | .polygon p => getBoundingRect_none_iff p.ext
+  | .multiPoint ps => getBoundingRect_none_iff ps
+  | .multiLineString ls => getBoundingRect_none_iff ls.flatten
+  | .multiPolygon ps => getBoundingRect_none_iff _
+  | .rect _ _ => by simp [boundingRect, exteriorCoords, rectCoords]
+  | .triangle a b c => by simp [boundingRect, exteriorCoords, getBoundingRect_none_iff]
+  | .collection gs => by
+      have := bbox_none_iff_list gs none
+      simpa only [boundingRect, exteriorCoords, true_and] using this
+theorem bbox_none_iff_list : ∀ (gs : List Geom) (acc : Option (Pt × Pt)),
+    boundingRectList acc gs = none ↔ acc = none ∧ exteriorCoordsList gs = []
+  | [], acc => by simp [boundingRectList, exteriorCoordsList]
+  | g :: gs, acc => by
+      simp only [boundingRectList, exteriorCoordsList, bbox_none_iff_list gs, bboxFoldStep_none_iff,
+        bbox_none_iff g, List.append_eq_nil_iff, and_assoc]
+end
+
+/-- [T] for geometries whose polygons have no interior coordinates (in particular: without
+polygons) the property's wording holds literally: `None` exactly when `coords_iter` is empty … -/
+theorem bbox_none_iff_coords (g : Geom) (h : noInteriors g = true) :
+    boundingRect g = none ↔ coordsIter g = [] := by
+  rw [bbox_none_iff, exterior_eq_of_noInteriors g h]
+
+theorem bbox_none_iff_coords_of_noPolygons (g : Geom) (h : noPolygons g = true) :
+    boundingRect g = none ↔ coordsIter g = [] :=
+  bbox_none_iff_coords g (noInteriors_of_noPolygons g h)
+
+/-- [T] … and the box is the component-wise min/max of all traversed coordinates. -/
+theorem bbox_bounds_coords (g : Geom) (hv : rectsValid g = true) (hn : noInteriors g = true)
+    (mn mx : Pt) (h : boundingRect g = some (mn, mx)) :
+    (∀ p ∈ coordsIter g, mn.x ≤ p.x ∧ p.x ≤ mx.x ∧ mn.y ≤ p.y ∧ p.y ≤ mx.y) ∧
+    (∃ p ∈ coordsIter g, p.x = mn.x) ∧ (∃ p ∈ coordsIter g, p.x = mx.x) ∧
+    (∃ p ∈ coordsIter g, p.y = mn.y) ∧ (∃ p ∈ coordsIter g, p.y = mx.y) := by
+  rw [← exterior_eq_of_noInteriors g hn]
+  exact bbox_bounds g hv mn mx h
+
+example : boundingRect (.collection [.multiPoint [], .collection [.lineString []]]) = none :=
+  (bbox_none_iff_coords_of_noPolygons _ (by decide)).2 rfl
+
+/-- [T] K6 witness: a polygon whose hole leaves the shell — the computed box, (0,0)–(1,1), does
+not contain the traversed hole coordinate (6,5), so "min/max of the traversed coordinates"
+fails for polygons with interior rings outside the exterior's box. -/
+theorem bbox_ignores_hole_witness :
+    let g : Geom := .polygon ⟨[⟨0, 0⟩, ⟨1, 0⟩, ⟨1, 1⟩, ⟨0, 0⟩], [[⟨5, 5⟩, ⟨6, 5⟩, ⟨6, 6⟩, ⟨5, 5⟩]]⟩
+    boundingRect g = some (⟨0, 0⟩, ⟨1, 1⟩) ∧ (⟨6, 5⟩ : Pt) ∈ coordsIter g := by
+  intro g
+  constructor
+  · simp only [g, boundingRect, getBoundingRect, List.foldl, getMinMax, rectNewPts, SM.rectNew]
+    norm_num
+  · simp [g, coordsIter, Poly.coords]
+
+/-! ## 6. `extremes` reports the first coordinates attaining the bounds -/
+
+/-- `e` names the *first* coordinate of `l` that minimises the key `k`: the coordinate sits at
+the index, no coordinate has a smaller key, every earlier one has a strictly larger key. -/
+def FirstMin (k : Pt → Rat) (l : List Pt) (e : Extreme) : Prop :=
+  l[e.index]? = some e.coord ∧ (∀ p ∈ l, k e.coord ≤ k p) ∧
+    (∀ j q, j < e.index → l[j]? = some q → k e.coord < k q)
+
+private def upd (k : Pt → Rat) (e : Extreme) (i : Nat) (c : Pt) : Extreme :=
+  if k c < k e.coord then ⟨i, c⟩ else e
+
+private theorem firstMin_step (k : Pt → Rat) (l : List Pt) (e : Extreme) (c : Pt)
+    (h : FirstMin k l e) : FirstMin k (l ++ [c]) (upd k e l.length c) := by
+  obtain ⟨h1, h2, h3⟩ := h
+  have hlt : e.index < l.length := by
+    rcases Nat.lt_or_ge e.index l.length with h | h
+    · exact h
+    · rw [List.getElem?_eq_none h] at h1; cases h1
+  unfold upd
+  by_cases hc : k c < k e.coord
+  · rw [if_pos hc]
+    refine ⟨by simp, ?_, ?_⟩
+    · intro p hp
+      rcases List.mem_append.1 hp with hp | hp
+      · exact le_of_lt (lt_of_lt_of_le hc (h2 p hp))
+      · simp only [List.mem_singleton] at hp; subst hp; exact le_refl _
+    · intro j q hj hq
+      simp only at hj
+      rw [List.getElem?_append_left hj] at hq
+      exact lt_of_lt_of_le hc (h2 q (List.mem_of_getElem? hq))
+  · rw [if_neg hc]
+    refine ⟨by rw [List.getElem?_append_left hlt]; exact h1, ?_, ?_⟩
+    · intro p hp
+      rcases List.mem_append.1 hp with hp | hp
+      · exact h2 p hp
+      · simp only [List.mem_singleton] at hp; subst hp; exact not_lt.1 hc
+    · intro j q hj hq
+      rw [List.getElem?_append_left (lt_trans hj hlt)] at hq
+      exact h3 j q hj hq
+
+private def AllFirst (l : List Pt) (o : Outcome) : Prop :=
+  FirstMin Pt.x l o.xMin ∧ FirstMin Pt.y l o.yMin ∧
+  FirstMin (fun p => -p.x) l o.xMax ∧ FirstMin (fun p => -p.y) l o.yMax
+
+private theorem extremesStep_eq (o : Outcome) (i : Nat) (c : Pt) :
+    extremesStep o (i, c) =
+      ⟨upd Pt.x o.xMin i c, upd Pt.y o.yMin i c,
+       upd (fun p => -p.x) o.xMax i c, upd (fun p => -p.y) o.yMax i c⟩ := by
+  simp only [extremesStep, upd, neg_lt_neg_iff, gt_iff_lt]
+  by_cases h1 : c.x < o.xMin.coord.x <;> by_cases h2 : c.y < o.yMin.coord.y <;>
+    by_cases h3 : o.xMax.coord.x < c.x <;> by_cases h4 : o.yMax.coord.y < c.y <;>
+    simp [h1, h2, h3, h4]
+
+private theorem allFirst_step (l : List Pt) (o : Outcome) (c : Pt) (h : AllFirst l o) :
+    AllFirst (l ++ [c]) (extremesStep o (l.length, c)) := by
+  rw [extremesStep_eq]
+  exact ⟨firstMin_step _ l _ c h.1, firstMin_step _ l _ c h.2.1,
+    firstMin_step _ l _ c h.2.2.1, firstMin_step _ l _ c h.2.2.2⟩
+
+private theorem allFirst_fold : ∀ (rest pre : List Pt) (o : Outcome), AllFirst pre o →
+    AllFirst (pre ++ rest) ((enumFrom' pre.length rest).foldl extremesStep o)
+  | [], pre, o, h => by simpa [enumFrom'] using h
+  | c :: rest, pre, o, h => by
+      have := allFirst_fold rest (pre ++ [c]) _ (allFirst_step pre o c h)
+      simpa [enumFrom'] using this
+
+private theorem firstMin_singleton (k : Pt → Rat) (p : Pt) : FirstMin k [p] ⟨0, p⟩ := by
+  refine ⟨rfl, ?_, ?_⟩
+  · intro q hq; simp only [List.mem_singleton] at hq; subst hq; exact le_refl _
+  · intro j q hj; simp at hj
+
+private theorem extremesOf_allFirst (cs : List Pt) (o : Outcome) (h : extremesOf cs = some o) :
+    AllFirst cs o := by
+  cases cs with
+  | nil => simp [extremesOf] at h
+  | cons p rest =>
+    simp only [extremesOf, Option.some.injEq] at h
+    have := allFirst_fold rest [p] ⟨⟨0, p⟩, ⟨0, p⟩, ⟨0, p⟩, ⟨0, p⟩⟩
+      ⟨firstMin_singleton _ p, firstMin_singleton _ p, firstMin_singleton _ p, firstMin_singleton _ p⟩
+    simp only [List.length_singleton, List.singleton_append] at this
+    rw [← h]; exact this
+
+/-- [T] `extremes` is `None` exactly when there are no coordinates. -/
+theorem extremesOf_none_iff (cs : List Pt) : extremesOf cs = none ↔ cs = [] := by
+  cases cs <;> simp [extremesOf]
+
+/-- [T] each of the four reported extremes sits at the index it names, attains the bound
+(no coordinate is smaller / larger in that component), and its index is the *first* one
+attaining it (every earlier coordinate is strictly inside). -/
+theorem extremes_attain (cs : List Pt) (o : Outcome) (h : extremesOf cs = some o) :
+    (cs[o.xMin.index]? = some o.xMin.coord ∧ (∀ p ∈ cs, o.xMin.coord.x ≤ p.x) ∧
+      (∀ j q, j < o.xMin.index → cs[j]? = some q → o.xMin.coord.x < q.x)) ∧
+    (cs[o.yMin.index]? = some o.yMin.coord ∧ (∀ p ∈ cs, o.yMin.coord.y ≤ p.y) ∧
+      (∀ j q, j < o.yMin.index → cs[j]? = some q → o.yMin.coord.y < q.y)) ∧
+    (cs[o.xMax.index]? = some o.xMax.coord ∧ (∀ p ∈ cs, p.x ≤ o.xMax.coord.x) ∧
+      (∀ j q, j < o.xMax.index → cs[j]? = some q → q.x < o.xMax.coord.x)) ∧
+    (cs[o.yMax.index]? = some o.yMax.coord ∧ (∀ p ∈ cs, p.y ≤ o.yMax.coord.y) ∧
+      (∀ j q, j < o.yMax.index → cs[j]? = some q → q.y < o.yMax.coord.y)) := by
+  obtain ⟨hx, hy, hX, hY⟩ := extremesOf_allFirst cs o h
+  refine ⟨hx, hy, ⟨hX.1, ?_, ?_⟩, ⟨hY.1, ?_, ?_⟩⟩
+  · intro p hp; exact neg_le_neg_iff.1 (hX.2.1 p hp)
+  · intro j q hj hq; exact neg_lt_neg_iff.1 (hX.2.2 j q hj hq)
+  · intro p hp; exact neg_le_neg_iff.1 (hY.2.1 p hp)
+  · intro j q hj hq; exact neg_lt_neg_iff.1 (hY.2.2 j q hj hq)
+
+/-- Non-vacuity, with ties: (0,0),(4,0),(4,3),(0,3),(0,0) — x-min is index 0 (not 3 or 4),
+x-max index 1 (not 2), y-max index 2 (not 3). -/
+example : ∃ o, extremesOf [⟨0, 0⟩, ⟨4, 0⟩, ⟨4, 3⟩, ⟨0, 3⟩, ⟨0, 0⟩] = some o ∧
+    o.xMin.index = 0 ∧ o.yMin.index = 0 ∧ o.xMax.index = 1 ∧ o.yMax.index = 2 := by
+  refine ⟨_, rfl, ?_⟩
+  simp only [enumFrom', List.foldl, extremesStep]
+  norm_num
+
+/-- [T] for a geometry: `extremes` works on the exterior traversal, is `None` exactly when
+`bounding_rect` is, … -/
+theorem extremes_none_iff (g : Geom) : extremes g = none ↔ boundingRect g = none := by
+  rw [extremes, extremesOf_none_iff, bbox_none_iff]
+
+/-- [T] … and the four reported coordinates attain exactly the bounds `bounding_rect` reports. -/
+theorem extremes_eq_bbox (g : Geom) (hv : rectsValid g = true) (o : Outcome) (mn mx : Pt)
+    (ho : extremes g = some o) (hb : boundingRect g = some (mn, mx)) :
+    o.xMin.coord.x = mn.x ∧ o.yMin.coord.y = mn.y ∧ o.xMax.coord.x = mx.x ∧ o.yMax.coord.y = mx.y := by
+  obtain ⟨⟨a1, a2, _⟩, ⟨b1, b2, _⟩, ⟨c1, c2, _⟩, ⟨d1, d2, _⟩⟩ := extremes_attain _ o ho
+  have hs := bbox_spec g hv
+  rw [hb] at hs
+  have mx' : IsMinMax ((exteriorCoords g).map Pt.x) o.xMin.coord.x o.xMax.coord.x := by
+    refine ⟨?_, List.mem_map.2 ⟨_, List.mem_of_getElem? a1, rfl⟩,
+      List.mem_map.2 ⟨_, List.mem_of_getElem? c1, rfl⟩⟩
+    intro v hv
+    obtain ⟨p, hp, rfl⟩ := List.mem_map.1 hv
+    exact ⟨a2 p hp, c2 p hp⟩
+  have my' : IsMinMax ((exteriorCoords g).map Pt.y) o.yMin.coord.y o.yMax.coord.y := by
+    refine ⟨?_, List.mem_map.2 ⟨_, List.mem_of_getElem? b1, rfl⟩,
+      List.mem_map.2 ⟨_, List.mem_of_getElem? d1, rfl⟩⟩
+    intro v hv
+    obtain ⟨p, hp, rfl⟩ := List.mem_map.1 hv
+    exact ⟨b2 p hp, d2 p hp⟩
+  have ux := mx'.unique hs.1
+  have uy := my'.unique hs.2
+  exact ⟨ux.1, uy.1, ux.2, uy.2⟩
+
+example : ∀ o, extremes (.polygon ⟨[⟨0, 0⟩, ⟨4, 0⟩, ⟨4, 3⟩, ⟨0, 3⟩, ⟨0, 0⟩], []⟩) = some o →
+    ∀ mn mx, boundingRect (.polygon ⟨[⟨0, 0⟩, ⟨4, 0⟩, ⟨4, 3⟩, ⟨0, 3⟩, ⟨0, 0⟩], []⟩) = some (mn, mx) →
+    o.xMin.coord.x = mn.x :=
+  fun o ho mn mx hb => (extremes_eq_bbox _ (by decide) o mn mx ho hb).1
 
 end Geo.Proofs.C19
